@@ -38,6 +38,27 @@ def run_c09(repo, tier, seed, only=None):
     fixed = [['{a: !xref b, b: !xref a}'], ['{a: !xref a}'], ['{a: !xref b, b: !xref c, c: !xref a, d: 1}'], ['{a: !xref b, b: !xref c, c: [1, 2]}'],
              ['{a: !xref zz}'], ['{l: [1, !xref "l[0]"], m: {k: !xref l}}']]
     cases = list(fixed)
+    # nested targets, written before and after the reference, in the same mapping, in another document, in lists and call arguments:
+    # checked for identity below
+    nested = [(['{r: !xref box.inner, box: {inner: [1]}}'], ['r'], ['box', 'inner']), (['{box: {inner: [1]}, r: !xref box.inner}'], ['r'], ['box', 'inner']),
+              (['{r: !xref "elems[1]", elems: [0, [1]]}'], ['r'], ['elems', 1]), (['{r: !xref a.b.c, a: {b: {c: [1]}}}'], ['r'], ['a', 'b', 'c']),
+              (['{r: !xref s, s: !xref box.inner, box: {inner: [1]}}'], ['r'], ['box', 'inner']), (['{box: {r: !xref box.inner, inner: [1]}}'], ['box', 'r'], ['box', 'inner']),
+              (['{r: !xref box.inner}', '{box: {inner: [1]}}'], ['r'], ['box', 'inner']), (['{l: [!xref box.inner], box: {inner: [1]}}'], ['l', 0], ['box', 'inner']),
+              (['{r: !ref box.inner, box: {inner: [1]}}'], ['r'], ['box', 'inner']), (['{r: !xref "d[0].x", d: [{x: [1]}]}'], ['r'], ['d', 0, 'x'])]
+    for texts, hp, tp in nested:
+        R.case(('nested',) + tuple(texts), {'docs': texts})
+        try:
+            cfg = ay.Config.build(*texts, raw_yaml=True)
+            holder, tgt = cfg, cfg
+            for comp in hp:
+                holder = holder[comp]
+            for comp in tp:
+                tgt = tgt[comp]
+            ok, why = holder is tgt, f'the reference holds {holder!r}, the target is {tgt!r} (not the same object)'
+        except Exception as e:
+            ok, why = False, f'build failed with {type(e).__name__}: {e}'[:300]
+        if not ok:
+            R.fail('bounded:C09.reference-is-the-object-at-the-referenced-path-wherever-the-target-is-defined', f'docs={texts}: {why}', {'family': 'c09', 'docs': texts})
     names = ['a', 'b', 'c', 'd']
     for _ in range(n_cases(tier, 40, 400)):
         n = rng.randint(2, 4)
@@ -91,6 +112,31 @@ def run_c16(repo, tier, seed, only=None):
     R.cases += 1
     if got != ('ok', {'l': [[1, 9], [2], [3]]}):
         R.fail('bounded:C16.known:append-to-an-element-of-a-list', f'docs={kf}: expected l: [[1, 9], [2], [3]], got {got!r}', {'family': 'c16', 'docs': kf})
+    # key names that are not plain identifiers (a path handed on as TEXT would be read differently), targets at depth 1-3, with a
+    # sibling whose own path spells the same text
+    for key in ("'my-list'", "'v1.2'", "'my opts'", "'x[0]'"):
+        k = key.strip("'")
+        for pre in ([], ['w'], ['w', 'v']):
+            def nest(inner):
+                for p in reversed(pre):
+                    inner = '{%s: %s}' % (p, inner)
+                return inner
+
+            def nestv(v):
+                for p in reversed(pre):
+                    v = {p: v}
+                return v
+            for op, new, want in (('!append 3', None, [1, 2, 3]), ('!extend [3, 4]', None, [1, 2, 3, 4])):
+                texts = [nest('{%s: [1, 2], other: 5}' % key), nest('{%s: %s}' % (key, op))]
+                got = build(ay, texts)
+                R.case(tuple(texts), {'docs': texts})
+                if got != ('ok', nestv({k: want, 'other': 5})):
+                    R.fail('bounded:C16.append-extend-prev-move-and-grow-without-loss', f'docs={texts}: expected {nestv({k: want, "other": 5})!r}, got {got!r}'[:600], {'family': 'c16', 'docs': texts})
+    texts = ["{r: {'a.b': [1], a: {b: [5]}}}", "{r: {'a.b': !append [2]}}"]
+    got = build(ay, texts)
+    R.case(tuple(texts), {'docs': texts})
+    if got != ('ok', {'r': {'a.b': [1, 2], 'a': {'b': [5]}}}):
+        R.fail('bounded:C16.append-extend-prev-move-and-grow-without-loss', f"docs={texts}: expected r: {{'a.b': [1, 2], a: {{b: [5]}}}}, got {got!r}"[:600], {'family': 'c16', 'docs': texts})
     for _ in range(n_cases(tier, 250, 4000)):
         g = G.Gen(rng, tags=(), leaves=[0, 1, 2, 'v'])
         base = g.map(3, top=True)
@@ -363,7 +409,126 @@ def _as_tree(v):
     return ('leaf', v, None)
 
 
+def run_c10(repo, tier, seed, only=None):
+    """C10 over key orders: documents in which dynamic nodes are consumed through references, !eval attribute access into containers,
+    call arguments and a top-level key that has the same name as a nested one; every permutation of the top-level keys (thorough) or a
+    sample of them (quick) must run every dynamic node exactly once, hand every consumer the very object its target holds, and
+    evaluate to the same config"""
+    ay = load(repo)
+    import builtins
+    import itertools
+    rng = random.Random(10000 + seed)
+    R = Runner('C10')
+    calls = []
+
+    class Obj:
+        def __init__(self, tag, arg=None):
+            self.tag, self.arg = tag, arg
+            calls.append(tag)
+
+        def __repr__(self):
+            return f'Obj({self.tag})'
+    builtins._verif_c10_obj = Obj
+    shapes = [
+        # (entries, identities to check: (holder path, target path))
+        ({'r': '!xref a.b', 'e': '!eval a.c', 'a': '{b: !call:builtins._verif_c10_obj {tag: B}, c: !call:builtins._verif_c10_obj {tag: C}}', 'c': '!call:builtins._verif_c10_obj {tag: TOPC}', 'x': '!xref c'},
+         [(['r'], ['a', 'b']), (['e'], ['a', 'c']), (['x'], ['c'])]),
+        ({'r': '!xref a.m.b', 'e': '!eval a.m.c', 'a': '{m: {b: !call:builtins._verif_c10_obj {tag: B}, c: !call:builtins._verif_c10_obj {tag: C}}}', 'c': '!call:builtins._verif_c10_obj {tag: TOPC}', 'x': '!eval c'},
+         [(['r'], ['a', 'm', 'b']), (['e'], ['a', 'm', 'c']), (['x'], ['c'])]),
+        ({'p': '!call:builtins._verif_c10_obj {tag: P}', 'q': '!call:builtins._verif_c10_obj {tag: Q, arg: !xref p}', 's': '!xref p', 't': '[!xref p, !xref q]'},
+         [(['s'], ['p']), (['t', 0], ['p']), (['t', 1], ['q'])]),
+    ]
+    for entries, idents in shapes:
+        keys = list(entries)
+        orders = list(itertools.permutations(keys))
+        if tier == 'quick':
+            rng.shuffle(orders)
+            orders = orders[:40]
+        ntags = sum(v.count('_verif_c10_obj') for v in entries.values())
+        for order in orders:
+            text = '\n'.join(f'{k}: {entries[k]}' for k in order) + '\n'
+            del calls[:]
+            R.case(text, {'doc': text})
+            try:
+                cfg = ay.Config.build(text, raw_yaml=True)
+            except Exception as e:
+                R.fail('bounded:C10.every-key-order-evaluates-every-dynamic-node-once-and-aliases-its-consumers', f'doc={text!r}: build failed with {type(e).__name__}: {e}'[:400], {'family': 'c10', 'docs': [text]})
+                break
+            problems = []
+            if sorted(calls) != sorted(set(calls)) or len(calls) != ntags:
+                problems.append(f'dynamic nodes ran {sorted(calls)}')
+            for hp, tp in idents:
+                h, t = cfg, cfg
+                for x in hp:
+                    h = h[x]
+                for x in tp:
+                    t = t[x]
+                if h is not t:
+                    problems.append(f'{hp} holds {h!r}, the target {tp} holds {t!r}')
+            if problems:
+                R.fail('bounded:C10.every-key-order-evaluates-every-dynamic-node-once-and-aliases-its-consumers', f'key order {list(order)}: ' + '; '.join(problems)[:500], {'family': 'c10', 'docs': [text]})
+                break
+    del builtins._verif_c10_obj
+    return R.result()
+
+
+def run_c07(repo, tier, seed, only=None):
+    """C07 end to end: a call / bind node that is unsafe (read from a source added with safe=False, or below an !unsafe node) stays
+    refused whatever SAFE later stages do to it - override or add arguments, wipe them with a deleting mapping or a list (which
+    promotes the function node into the replacing node's place), rename the target, touch a sibling.  The build must fail with an
+    UnsafeError in the exception chain and the probe target must never run."""
+    ay = load(repo)
+    import builtins
+    R = Runner('C07')
+    ran = []
+    builtins._verif_c07_probe = lambda *a, **k: ran.append((a, k)) or 1
+    unsafe_forms = [('unsafe source', 'c: {kind}:builtins._verif_c07_probe {{a: 1}}\n', False, 'c'), ('below !unsafe', 'x: !unsafe {{c: {kind}:builtins._verif_c07_probe {{a: 1}}}}\n', True, 'x.c')]
+    later = ['{}', '{b: 2}', '{a: 5}', '!del {b: 2}', '!del {}', '[5]', '[]', 'builtins._verif_c07_probe', None]
+    try:
+        for kind in ('!call', '!bind'):
+            for label, first, first_safe, where in unsafe_forms:
+                for lt in later:
+                    b = ay.Builder()
+                    b.add_source(first.format(kind=kind), raw_yaml=True, safe=first_safe)
+                    texts = [first.format(kind=kind)]
+                    if lt is not None:
+                        second = ('c: %s\n' % lt) if where == 'c' else ('x: {c: %s}\n' % lt)
+                        b.add_source(second, raw_yaml=True, safe=True)
+                        texts.append(second)
+                    if lt in ('{b: 2}',):
+                        b.add_source('z: 1\n', raw_yaml=True, safe=True)
+                        texts.append('z: 1\n')
+                    del ran[:]
+                    R.case((kind, label, lt), {'docs': texts, 'first_source_safe': first_safe})
+                    try:
+                        cfg = ay.Config(b.build())
+                        v = cfg['c'] if where == 'c' else cfg['x']['c']
+                        if kind == '!bind' and callable(v):
+                            outcome = 'a partial of the target was produced'
+                        else:
+                            outcome = f'built: {v!r}'
+                    except Exception as e:
+                        chain, cur = [], e
+                        while cur is not None and len(chain) < 8:
+                            chain.append(type(cur).__name__)
+                            cur = cur.__cause__ or cur.__context__
+                        outcome = None if 'UnsafeError' in chain else f'failed with {chain} (no UnsafeError)'
+                    if ran:
+                        outcome = f'the target ran with {ran!r}'
+                    if outcome is not None:
+                        R.fail('bounded:C07.an-unsafe-dynamic-node-stays-refused-whatever-safe-later-stages-do', f'{label}, docs={texts}: {outcome}'[:600], {'family': 'c07', 'docs': texts})
+    finally:
+        del builtins._verif_c07_probe
+    return R.result()
+
+
 def register3(R):
+    R.tasks.append(Bounded('bounded:C07-unsafe-node-under-later-safe-stages', ('C07',), run_c07,
+                           '2 node kinds x 2 origins of unsafety x 9 later safe stages (argument override / addition, deleting mapping or list with and without content, empty mapping, target name, none)',
+                           stands_in_for='ConfigNode._replace_self / _replace_other WITH promotion (_maybe_promote copies the instance dictionary of the surviving node; only the no-promotion instances are under a discharged contract)'))
+    R.tasks.append(Bounded('bounded:C10-key-orders', ('C10',), run_c10,
+                           'three document shapes (references into nested containers, !eval attribute access, a top-level key named like a nested one, call arguments); every permutation of the top-level keys (thorough) / 40 sampled (quick)',
+                           stands_in_for='EvalContext.PartialChild.get_or_set / __getitem__ (partial results filed by path), XRefNode lookup through EvalContext.get_node'))
     R.tasks.append(Bounded('bounded:C14-placeholders-over-merge-sequences', ('C14',), run_c14,
                            '1-4 documents of one shape (mappings, depth <= 3, leaves values or !required, !force/!weak on leaves and containers); quick 250 / thorough 4000 sequences',
                            stands_in_for='the composed merge deciding which placeholder is overwritten (its key loop and priority propagation are proved piecewise for C02/C03); '
@@ -389,9 +554,22 @@ def run_c11(repo, tier, seed, only=None):
     from awesomeyaml.utils import Bunch
     rng = random.Random(11000 + seed)
     R = Runner('C11')
+    # scalars come out with their EXACT Python type (not a subclass defined by the package), at every position
+    sdoc = "b: true\nn: null\nf: 1.5\ni: 3\ns: x\nq: 'true'\nl: [true, false, null, 2]\nm: {k: false, z: 0}\nr: !xref b\nc: !bind:builtins.dict {k: true, v: null}\n"
+    R.case(sdoc, {'doc': sdoc})
+    try:
+        cfg = ay.Config.build(sdoc, raw_yaml=True)
+        vals = [('b', cfg['b'], bool), ('n', cfg['n'], type(None)), ('f', cfg['f'], float), ('i', cfg['i'], int), ('s', cfg['s'], str), ('q', cfg['q'], str), ('r', cfg['r'], bool),
+                ('l[0]', cfg['l'][0], bool), ('l[1]', cfg['l'][1], bool), ('l[2]', cfg['l'][2], type(None)), ('l[3]', cfg['l'][3], int), ('m.k', cfg['m']['k'], bool), ('m.z', cfg['m']['z'], int),
+                ('c.k', cfg['c'].keywords['k'], bool), ('c.v', cfg['c'].keywords['v'], type(None))]
+        bad = [(p, type(v).__module__ + '.' + type(v).__name__) for p, v, t in vals if type(v) is not t]
+    except Exception as e:
+        bad = [('build', f'{type(e).__name__}: {e}'[:200])]
+    if bad:
+        R.fail('bounded:C11.scalars-come-out-with-their-exact-python-type', f'doc={sdoc!r}: {bad}', {'family': 'c11', 'docs': [sdoc]})
 
     def leaks(x, path=()):
-        if isinstance(x, ConfigNode):
+        if isinstance(x, ConfigNode) or (not isinstance(x, (dict, list, tuple)) and type(x).__module__.startswith('awesomeyaml')):
             return path
         if isinstance(x, dict):
             for k, v in x.items():
